@@ -189,6 +189,30 @@ def tag_level(n1: int, t1: bool, g1: bool, n2: int, t2: bool, g2: bool, n3: int,
     return got == sorted(want)
 
 
+# ------------------------------------------------------------------ K3b which groups count as top-level groups
+def top_level_flags(x1: str, x2: str, x3: str, x4: str) -> bool:
+    """
+    pre: len(x1) == 1 and len(x2) == 1 and len(x3) == 1 and len(x4) == 1
+    pre: x1 in "abA" and x2 in "abA" and x3 in "abA" and x4 in "abA"
+    post: _
+    """
+    # annotation  (x1), (x2, (x3)), x4 : a group is a top-level group iff it sits directly at the top level -
+    # whatever its CONTENT (a nested group may well have the same content as a top-level one)
+    from hed.models.hed_group import HedGroup
+    inner = HedGroup(contents=[HedTag(x3, NOSCHEMA)])
+    g1 = HedGroup(contents=[HedTag(x1, NOSCHEMA)])
+    g2 = HedGroup(contents=[HedTag(x2, NOSCHEMA), inner])
+    hs = HedString("", NOSCHEMA, _contents=[g1, g2, HedTag(x4, NOSCHEMA)])
+    got = hs.get_all_groups(also_return_depth=True)
+    if len(got) != 4:
+        return False
+    want = [(hs, False), (g1, True), (g2, True), (inner, False)]
+    for (g, flag), (wg, wflag) in zip(got, want):
+        if g is not wg or bool(flag) != wflag:
+            return False
+    return True
+
+
 # ------------------------------------------------------------------ K4 per-tag rules on the mini schema
 def _err_codes(issues):
     out = []
@@ -413,6 +437,13 @@ HARNESSES = [
              "temporal/duration tag",
         oracle="inline reading of the HED placement rules", stubs=["stub tags exposing exactly the attributes the kernel reads"],
         outside="which schema tags carry the attributes (bundled schemas)"),
+    R.H("top_level_flags", ["hed.models.hed_group.HedGroup.get_all_groups", "hed.models.hed_group.HedGroup._check_in_group",
+                            "hed.validator.util.group_util.GroupValidator.run_tag_level_validators"],
+        quick=R.tier(timeout=300, bound="annotation (x1),(x2,(x3)),x4 with each xi any of {a,b,A}"),
+        what="the is-top-level flag that run_tag_level_validators hands to the placement check is True exactly for "
+             "the groups sitting directly at the top level, also when a nested group has the same content as one of them",
+        oracle="inline (position in the tree)", stubs=["NoSchema stub; tree built with the public constructors"],
+        outside="other shapes"),
     R.H("tag_rules",
         ["hed.validator.util.tag_util.TagValidator.run_individual_tag_validators",
          "hed.validator.util.tag_util.TagValidator.check_tag_exists_in_schema",
